@@ -18,7 +18,9 @@ PREFIX = "C02"
 def run(chk):
     work = chk.work
     cases = os.path.join(work, "cases.ndjson")
-    n_strings, n_cases = pg.token_string_cases(chk, ["items", "fields", "vars", "args"], cases, ["Document"], [(-1, -1)])
+    # no token limit; the recursion limit may be set (a limit error must not cost any byte of the rest of the input)
+    n_strings, n_cases = pg.token_string_cases(chk, ["items", "fields", "vars", "args"], cases, ["Document"], [(-1, -1)],
+                                               extra_limits=[(-1, 0), (-1, 1)], extra_every=2)
     chk.stage("tlc-enumeration")
     res = os.path.join(work, "res.ndjson")
     pg.run_bulk(chk, cases, res)
